@@ -177,7 +177,8 @@ def last_tx(w, side, kind):
 def run_positive_ack(case, side):
     """EOF-ACK procedure at the sender (side S) or Finished-ACK procedure at the receiver (side D)."""
     N, ivl_ms = case["N"], int(case["ivl"] * 1000)
-    cfg = {"mode": "ack", "size": case["size"], "seg": 4, "ack_limit": N, "ack_ivl": case["ivl"], "nak_ivl": 77.0, "fs": "mem"}
+    cfg = {"mode": "ack", "size": case["size"], "seg": 4, "ack_limit": N, "ack_ivl": case["ivl"], "nak_ivl": 77.0, "fs": "mem",
+           "scribble_pdus": bool((N + case["size"]) % 2)}  # (in half of the scenarios the user edits every PDU object it has retrieved)
     obs = {}
     if case.get("other_entity"):
         # another entity of the same process configures its own fault handler table (to ignore the limit faults); this entity keeps the defaults
